@@ -357,6 +357,13 @@ class Interp(object):
                 return l & r
         if op in ('==', '!=') and isinstance(l, tuple) and isinstance(r, tuple) and l[0] == 'e' and r[0] == 'e':
             return (l == r) if op == '==' else (l != r)
+        if op in ('<', '<=', '>', '>=') and isinstance(l, tuple) and isinstance(r, tuple) and len(l) == 2 and len(r) == 2 and l[0] == 'e' and r[0] == 'e' \
+                and isinstance(l[1], str) and isinstance(r[1], str) and l[1].rsplit('::', 1)[0] == r[1].rsplit('::', 1)[0]:
+            # ordered comparison of two enumerators of one (scoped) enum: by their declared values
+            tab = {x['name']: x['value'] for x in (self.prog.enums.get(l[1].rsplit('::', 1)[0]) or {}).get('enumerators', [])}
+            a, b = tab.get(l[1].rsplit('::', 1)[1]), tab.get(r[1].rsplit('::', 1)[1])
+            if a is not None and b is not None:
+                return {'<': a < b, '<=': a <= b, '>': a > b, '>=': a >= b}[op]
         raise Unsupported('binary %s on %r, %r at %s' % (op, l, r, n.loc()))
 
     def evcall(self, n, env):
